@@ -62,6 +62,8 @@ var dcFieldSrc = map[string]string{
 	"structTwice": "TW1 Series\n\tTW2 Series",
 	// the package declares identifiers named like standard packages a generated file might import (slices, maps)
 	"identClash": "SL []bool\n\tMP map[string]bool",
+	// two enabled types whose names differ in case only: their order in the generated file is fixed all the same
+	"caseTwins": "Op Option\n\tOp2 option",
 }
 
 var dcDeps = map[string]string{
@@ -76,6 +78,7 @@ var dcDeps = map[string]string{
 	"structWide":      "// Wide has two struct fields of its own.\ntype Wide struct {\n\tA WA\n\tB WB\n}\n\n// WA is the first.\ntype WA struct {\n\tL []int\n}\n\n// WB is the second.\ntype WB struct {\n\tM map[string]int\n}\n",
 	"structMixed":     "// Mixed starts with scalars and a scalar-only struct; containers follow.\ntype Mixed struct {\n\tAuthor string\n\tOrigin Point\n\tTags   []string\n\tAttrs  map[string]string\n}\n\n// Point has scalars only.\ntype Point struct {\n\tX, Y int\n}\n",
 	"structTwice":     "// Series holds containers; the root type has two fields of it.\ntype Series struct {\n\tPoints []int\n\tTags   map[string]string\n}\n",
+	"caseTwins":       "// Option is exported.\ntype Option struct {\n\tL []int\n}\n\n// option differs from Option in case only.\ntype option struct {\n\tM map[string]int\n}\n",
 	"identClash":      "// slices is an identifier of this package.\ntype slices uint8\n\n// maps likewise.\ntype maps uint8\n",
 	"definedMapLate":  "// ZMap is a defined map; its name sorts after the root type's.\ntype ZMap map[string]int\n",
 	"genericNamedArg": "// ZPair is generic; its name sorts after the root type's, so it is first met as a dependency.\ntype ZPair[K comparable, V any] struct {\n\tKey K\n\tVal V\n\tM   map[string]int\n}\n\n// Level is a defined scalar used as a type argument.\ntype Level int\n",
